@@ -343,7 +343,7 @@ class EstimationProviderUnlinked(EstimationProvider):
 
             if has_dataset_model_global_model(dataset_model):
                 residuals[label] = xr.DataArray(
-                    np.array(self._residuals[label]).T.reshape(model_axis.size, global_axis.size),
+                    np.array(self._residuals[label]).reshape(global_axis.size, model_axis.size).T,
                     coords={global_dimension: global_axis, model_dimension: model_axis},
                     dims=[model_dimension, global_dimension],
                 )
